@@ -154,7 +154,37 @@ def _down1d(shard, ctx, res, only):
 
 
 def _down2d(shard, ctx, res, only):
-    from sigpyproc.core import stats
+    from sigpyproc.core import kernels, stats
+
+    # exact integer means: a block of the constant v must decimate to v for every factor pair (no x.9999 -> x-1 truncation)
+    if only is None or only[0] == "const":
+        for f1 in range(1, 25):
+            for f2 in range(1, 17):
+                if only is not None and only[1:] != [f1, f2]:
+                    continue
+                res.evaluations += 1
+                case = {"shard": shard, "inner": ["const", f1, f2]}
+                bad = None
+                for v in (1, 3, 7, 200, 255):
+                    a = np.full(f1 * 2 * f2 * 2, v, dtype=np.uint8)
+                    for nm, k in (("downsample_2d_mean_flat", kernels.downsample_2d_mean_flat), ("downsample_2d_mean_parallel", kernels.downsample_2d_mean_parallel)):
+                        r = np.asarray(k(a, f1, f2, f1 * 2, f2 * 2))
+                        if r.shape != (4,) or not np.all(r == v):
+                            bad = (nm, v, r.tolist())
+                    if f2 == 1:
+                        for nm, k in (("downsample_1d_mean", kernels.downsample_1d_mean), ("downsample_1d_mean_parallel", kernels.downsample_1d_mean_parallel)):
+                            r = np.asarray(k(np.full(f1 * 3, v, dtype=np.uint8), f1))
+                            if not np.all(r == v):
+                                bad = (nm, v, r.tolist())
+                if bad:
+                    res.violation({"site": f"kernels.{bad[0]}", "symptom": "mean of a constant integer block is not that constant"}, case,
+                                  f"factors ({f1},{f2}): constant {bad[1]} decimates to {bad[2]}")
+                else:
+                    res.outcome("down2d_flat/ok")
+                    if f1 * f2 > 1:
+                        res.nontrivial += 1
+        if only is not None:
+            return
 
     shapes = [(4, 6), (5, 7), (6, 4), (1, 5), (3, 1)] + ([(8, 12), (9, 5)] if shard["big"] else [])
     for d1, d2 in shapes:
